@@ -195,6 +195,8 @@ impl Shared {
 
         let store = self.store();
         let get_unfrozen_block = |number: BlockNumber| {
+            #[cfg(ckb_verif)]
+            ckb_util::verif::point("shared::freeze_before_fetch_block");
             store
                 .get_block_hash(number)
                 .and_then(|hash| store.get_unfrozen_block(&hash))
